@@ -76,11 +76,17 @@ def gen_cases(ctx):
         for k in [1, 2, 3, 5, 7, max(n, 1), n + 1, "inf"]:
             for spec in ["single", "list", "dict"]:
                 cases.append({"kind": "sched", "n": n, "k": k, "spec": spec, "dt": rng.choice(GRID_DT)})
+    for T, dt in pairs:
+        q = T / dt
+        if q < 40:
+            for k in (rng.choice([1, 2, 3]), "inf"):
+                cases.append({"kind": "sched2", "T": T, "dt": dt, "k": k})
     if ctx.tier == "quick" and ctx.scale == 1:
         rng.shuffle(cases)
         num = [c for c in cases if c["kind"] == "numsteps"][:700]
         sch = [c for c in cases if c["kind"] == "sched"][:250]
-        cases = num + sch
+        sch2 = [c for c in cases if c["kind"] == "sched2"][:250]
+        cases = num + sch + sch2
     # 3. concrete classes
     kinds = ["exact", "tebd", "tdvp1", "tdvp2", "tdvp2site", "bug", "fixedbug"]
     reps = ctx.n(6, 30)
@@ -119,6 +125,8 @@ def run_case(ctx, case, model_out=None):
         _case_numsteps(ctx, case, model_out)
     elif kind == "sched":
         _case_sched(ctx, case, model_out)
+    elif kind == "sched2":
+        _case_sched2(ctx, case)
     else:
         _case_class(ctx, case)
 
@@ -211,6 +219,37 @@ def _case_sched(ctx, case, model_out):
         ctx.oracle_fail(case, "driver schedule: " + "; ".join(probs[:4]))
 
 
+def _case_sched2(ctx, case):
+    """The driver constructed from (T, dt) itself (n possibly rounded up): times are j*k*dt, also beyond T."""
+    T, dt, k = case["T"], case["dt"], case["k"]
+    Counting = _counter_class()
+    try:
+        algo = Counting(0, dt, T, [5, 6])
+        algo.run(evaluation_time=k, pgbar=False)
+    except Exception as e:          # noqa: BLE001
+        ctx.oracle_fail(case, f"run raised {type(e).__name__}: {e}")
+        return
+    n = oracle_num_steps(T, dt)
+    rounded_up = n * dt > T
+    ctx.count(("sched2", T, dt, k), nontrivial=rounded_up)
+    ctx.tally("sched2_rounded_up", rounded_up)
+    cols = [n] if k == "inf" else list(range(0, n + 1, k))
+    res = algo.results
+    probs = []
+    if res.shape != (3, len(cols)):
+        probs.append(f"table shape {res.shape} expected {(3, len(cols))}")
+    else:
+        for j, steps in enumerate(cols):
+            if res[0, j] != 5000 + steps or res[1, j] != 6000 + steps:
+                probs.append(f"col {j}: values {res[0, j]}, {res[1, j]} expected state after {steps} steps")
+            if res[-1, j] != steps * dt:
+                probs.append(f"time col {j}: {res[-1, j]} expected {steps}*dt = {steps * dt} (T = {T})")
+        if algo.state != n:
+            probs.append(f"{algo.state} steps performed, expected {n}")
+    if probs:
+        ctx.oracle_fail(case, f"driver with T={T}, dt={dt}, k={k}: " + "; ".join(probs[:3]))
+
+
 # ------------------------------------------------------------------ concrete classes
 
 def _build_problem(case):
@@ -251,7 +290,7 @@ def _make(case, ttns, H, Hm, order, dims, ops, dt, T, rng, nprng):
     kind = case["algo"]
     if kind == "exact":
         from pytreenet.time_evolution.exact_time_evolution import ExactTimeEvolution
-        return ExactTimeEvolution(dense.ttns_vector(ttns, order), Hm, dt, T, ops)
+        return ExactTimeEvolution(dense.ttns_vector(ttns, order), _exact_generator(case, Hm), dt, T, ops)
     if kind == "tebd":
         from pytreenet.time_evolution.trotter import TrotterSplitting
         # nearest-neighbour Hermitian terms along tree edges
@@ -264,6 +303,15 @@ def _make(case, ttns, H, Hm, order, dims, ops, dt, T, rng, nprng):
                 tps.append(TensorProduct({nid: a, p: b}))
         return algos.make_algo("tebd", ttns, None, dt, T, ops, trotter=TrotterSplitting.from_lists(tps))
     return algos.make_algo(kind, ttns, H, dt, T, ops)
+
+
+def _exact_generator(case, Hm):
+    """The exact reference evolution takes any square generator: Hermitian, or H0 - i*Gamma (decay)."""
+    if case["seed"] % 3 != 0:
+        return Hm
+    g = np.random.default_rng(case["seed"] + 17)
+    A = g.standard_normal(Hm.shape) + 1j * g.standard_normal(Hm.shape)
+    return Hm - 0.5j * (A @ A.conj().T) / Hm.shape[0]
 
 
 def _state_vec(algo, case, order):
@@ -319,8 +367,9 @@ def _case_class(ctx, case):
             if res[-1, j] != s * dt:
                 probs.append(f"time col {j}: {res[-1, j]} != {s * dt}")
             if kind == "exact":
-                w, U = np.linalg.eigh(Hm)
-                ref = (U * np.exp(-1j * w * s * dt)) @ (U.conj().T @ v_init)
+                G = _exact_generator(case, Hm)
+                w, V = np.linalg.eig(G)          # generic matrices are diagonalisable
+                ref = V @ (np.exp(-1j * w * s * dt) * np.linalg.solve(V, v_init))
                 if np.linalg.norm(v - ref) > 1e-9 * max(1.0, np.linalg.norm(ref)):
                     probs.append(f"exact evolution after {s} steps differs from exp(-iH t) psi")
         if spec == "dict":
